@@ -4,7 +4,7 @@ from .common import generic_run, FinalDbMonitor, launched_instances
 PID = 'C04'
 ENGINE = 'E1'
 LEVEL = 'exploration'
-RULE = ('One case = generated workflow with 1-3 recurrences of different steps, a runahead limit P0..P4, future-trigger offsets, final/stop points + all-complete outcome plan + seeded schedule. Each release from the runahead pool is compared with a limit recomputed by brute force from the model point sets; the run must finish when every task completes. Distinct = distinct (program, schedule digest); non-trivial = the limit was binding at least once (a task was released exactly at the recomputed limit).')
+RULE = ('One case = generated workflow with 1-3 recurrences of different steps, a runahead limit P0..P4, future-trigger offsets, final/stop points + all-complete outcome plan + seeded schedule. Each release from the runahead pool is compared with a limit recomputed by brute force from the model point sets; the run must finish when every task completes. A share of the cases reloads the unchanged definition once in mid-run. Distinct = distinct (program, schedule digest); non-trivial = the limit was binding at least once (a task was released exactly at the recomputed limit).')
 ASSUMPTIONS = [
     'jobs, polls, submissions, message transport and the clock are simulated',
     'reference model / invariants cover the generated workflow sub-language',
@@ -66,6 +66,8 @@ def end_check(res, mode):
 
 
 def run(params):
+    from .common import reload_monitors
     return generic_run(PID, params, knobs=KNOBS, policy='complete',
                        prog_hook=prog_hook, end_check=end_check,
+                       monitors=reload_monitors(params['seed'], 'c04', 4),
                        probe_key='runahead_limit_binding')
